@@ -59,8 +59,19 @@ def cases_sequential(tier):
                             yield (w, body)
 
 
+def cases_sysexit(tier):
+    """A notification whose method leaves through SystemExit (default dispatch): never answered, later entries still run."""
+    for shape in SHAPES:
+        n = notif(shape, ("sysexit", []))
+        for w in (WORLDS[0], WORLDS[4]):
+            yield (w, B.dumps(n))
+            for o in OTHERS:
+                yield (w, B.dumps([n, o]))
+                yield (w, B.dumps([o, n, obj("2.0", ABSENT, "f", ["after"])]))
+
+
 def leg_sequential(part, tier, shard, nshards):
-    sc.body_leg(part, "sequential", PROPS, cases_sequential(tier), shard, nshards)
+    sc.body_leg(part, "sequential", PROPS, itertools.chain(cases_sequential(tier), cases_sysexit(tier)), shard, nshards)
 
 
 # -- client side -------------------------------------------------------------------
@@ -148,9 +159,19 @@ class NotifHarness(object):
             d.register_function(self.rec(n), n)
         d.set_notification_pool(pool)
         custom = None
-        if self.dispatch == "custom":
+        if self.dispatch.startswith("custom"):
             def custom(method, params):
                 return self.rec(method)(*params)
+            if self.dispatch == "custom-partial":
+                import functools
+                custom = functools.partial(custom)  # a callable without __name__
+            elif self.dispatch == "custom-instance":
+                plain = custom
+
+                class Dispatch(object):
+                    def __call__(self, method, params):
+                        return plain(method, params)
+                custom = Dispatch()
         body = json.dumps(self.batch)
         starter = None
         if self.when == "before":
@@ -228,9 +249,11 @@ def harnesses(tier):
     sizes = [(1, 0), (1, 1), (2, 0), (2, 1), (2, 2)] + ([(3, 0), (3, 1)] if tier == "thorough" else [])
     for size in sizes:
         for when in ("before", "during", "after"):
-            for dispatch in ("default", "custom"):
+            for dispatch in ("default", "custom", "custom-partial", "custom-instance"):
                 for bi in range(len(BATCHES)):
                     if tier == "quick" and dispatch == "custom" and bi not in (0, 3):
+                        continue
+                    if dispatch in ("custom-partial", "custom-instance") and (bi not in (0, 2) or when != "before" or (tier == "quick" and size not in ((1, 0), (2, 1)))):
                         continue
                     if bi >= 5 and tier == "quick" and (size not in ((1, 0), (2, 1)) or when == "during"):
                         continue
@@ -255,7 +278,7 @@ META = {
     "(schedule enumeration with iterative preemption/timer bounds) of the dispatcher with a notification ThreadPool",
     "rule": "sequential: 5 notification shapes x 7 method outcomes x 8 (version, dispatch) configurations x placement alone / every position of every "
     "batch of <=2 (quick) / <=3 (thorough) other entries from a 5-entry alphabet; client: _notify and MultiCall._notify through a loopback proxy for "
-    "client/server versions {1.0,2.0}^2; pool: 8 batches (notifications of the three shapes, calls, failing notifications, calls with falsy ids 0/False/0.0/[]/{}) x pool sizes x pool started before/during/after the request x default/custom dispatch, every "
+    "client/server versions {1.0,2.0}^2; pool: 8 batches (notifications of the three shapes, calls, failing notifications, calls with falsy ids 0/False/0.0/[]/{}) x pool sizes x pool started before/during/after the request x default/custom dispatch (function, functools.partial, callable instance), every "
     "schedule up to the per-harness completed (K,T) level; non-trivial = inside the domain / execution with a choice point",
     "bounds": {"quick": {"batch_len": 3, "pool_sizes": "(1,0) (1,1) (2,0) (2,1) (2,2)", "levels": "iterative ladder, predicted next level <= 1200 executions"},
                "thorough": {"batch_len": 4, "pool_sizes": "+ (3,0) (3,1)", "levels": "ladder, predicted <= 40000"}},
